@@ -85,7 +85,7 @@ class Config:
                 'nest': getattr(self, 'nest', False), 'inv32': getattr(self, 'inv32', False),
                 'keepgrad': getattr(self, 'keepgrad', False), 'spike': getattr(self, 'spike', None),
                 'inv16': getattr(self, 'inv16', False), 'fac32': getattr(self, 'fac32', False),
-                'perturb_ctor': getattr(self, 'perturb_ctor', False), 'mixdt': getattr(self, 'mixdt', False),
+                'perturb_ctor': getattr(self, 'perturb_ctor', False), 'mixdt': getattr(self, 'mixdt', False), 'fac16': getattr(self, 'fac16', False),
                 'hyper_factors': [{k: str(v) for k, v in d_.items()} for d_ in (getattr(self, 'hyper_factors', None) or [])],
                 'hyper': {k: (str(v) if not isinstance(v, list) else [str(x) for x in v]) for k, v in self.hyper.items()},
                 'ops': list(self.ops), 'seed': self.seed, 'sched_seed': getattr(self, 'sched_seed', None),
@@ -340,7 +340,7 @@ def make_prog(cfg):
                 compute_eigenvalue_outer_product=cfg.prediv, compute_method=cfg.method,
                 grad_worker_fraction=cfg.k / cfg.world, symmetry_aware=cfg.sym,
                 inv_dtype=(torch.bfloat16 if getattr(cfg, 'inv16', False) else (torch.float32 if getattr(cfg, 'inv32', False) else DT)),
-                factor_dtype=(torch.float32 if getattr(cfg, 'fac32', False) else None),
+                factor_dtype=(torch.bfloat16 if getattr(cfg, 'fac16', False) else torch.float32 if getattr(cfg, 'fac32', False) else None),
                 update_factors_in_hook=cfg.hook,
                 grad_scaler=(None if getattr(cfg, 'union_of', None) is None
                              else (lambda: 1.0 / cfg.union_of)))
@@ -426,6 +426,15 @@ def make_prog(cfg):
                     model.zero_grad(set_to_none=not getattr(cfg, 'keepgrad', False))
                 elif op == 'r':
                     p.reset_batch()
+                elif op == 'X':
+                    # hyper-parameter-only round trip on the LIVE preconditioner: state without factors, default
+                    # compute_inverses=True (which the library turns off with a warning: nothing to compute from).  Steps and
+                    # scalar hyper-parameters are restored to what they are; factors and second-order data stay untouched.
+                    import warnings as _w
+                    with _w.catch_warnings():
+                        _w.simplefilter('ignore')
+                        p.load_state_dict(p.state_dict(include_factors=False), compute_inverses=True)
+                    rec['steps'] = p.steps
                 elif op == 'm':
                     rec['mem'] = dict(p.memory_usage())
                     # independent walk: every tensor attribute of every layer object
@@ -546,6 +555,8 @@ def model_line(cfg, rr):
             for i in range(int(op[2:]) + 1):
                 h.update(cfg.hyper_changes[i])
             ops.append('h:' + hyper_str(h, sep='/').replace('/', '%').replace('%c:', '/c:').replace('%f:', '/f:'))
+        elif op == 'X':
+            ops.append('f0')      # a no-op of the state machine, like an eval-mode pass
         else:
             ops.append(op)
     es = 8
@@ -771,7 +782,9 @@ def compare(ctx, cfg, rr, mo, tol=2e-3, streams=('trace', 'grads', 'ranks', 'mem
                 ctx.compare('precond-steps', dict(case, op_index=i), m.group(1), str(recs[0]['steps']))
             if 'ranks' in streams:
                 worst = max(relerr(recs[r]['grads'][l], recs[0]['grads'][l]) for r in range(W) for l in range(len(dims)))
-                ctx.compare('precond-ranks-equal', dict(case, op_index=i, worst=worst), m.group(2), '1' if worst < 1e-6 else '0')
+                # identical = bit for bit: every rank multiplies the same (broadcast, or identically recomputed) tensors
+                exact = all(torch.equal(recs[r]['grads'][l], recs[0]['grads'][l]) for r in range(W) for l in range(len(dims)))
+                ctx.compare('precond-ranks-equal', dict(case, op_index=i, worst=worst), m.group(2), '1' if exact else '0')
             if 'grads' in streams:
                 terms = m.group(3).split(';')
                 ev.begin_step(recs[0]['raw'])
@@ -996,6 +1009,7 @@ def replay_case(ctx, payload, streams, oracles=()):
     cfg.spike = tuple(c['spike']) if c.get('spike') else None
     cfg.perturb_ctor = c.get('perturb_ctor', False)
     cfg.mixdt = c.get('mixdt', False)
+    cfg.fac16 = c.get('fac16', False)
     cfg.hyper_factors = [{k: Fraction(v) for k, v in d_.items()} for d_ in c.get('hyper_factors', [])] or None
     cfg.arch = [tuple(tuple(x) if isinstance(x, list) else x for x in a) for a in c['arch']]
     cfg.ops = list(c['ops'])
